@@ -200,7 +200,9 @@ func (b *Broker) handle(c *Conn, n int, p *Pkt) (out []resp, closeAfter bool) {
 			if code == 0 {
 				code = 3
 			}
-			return []resp{{p: &Pkt{Type: TConnAck, Code: code}}}, true
+			// (Prefix 1: a peer - a proxy, a non-compliant broker - that refuses and
+			// leaves the connection open; ending it is then the client's job)
+			return []resp{{p: &Pkt{Type: TConnAck, Code: code}}}, f.Prefix != 1
 		}
 		if f := s.faultConn("sessionLoss", c.k); f != nil {
 			if _, ok := b.sessions[p.ClientID]; ok {
